@@ -59,7 +59,7 @@ type NativeBin struct {
 }
 
 // buildNative compiles the replay test binary for the given harness file sets and (harness,args) cases.
-func buildNative(files []string, cases map[string][2]interface{}, race bool, rewriteOS bool) (*NativeBin, error) {
+func buildNative(files []string, cases map[string][2]interface{}, race bool, rewriteProg *Program) (*NativeBin, error) {
 	wd := workDir()
 	ov, err := harnessOverlay(files, true)
 	if err != nil {
@@ -91,8 +91,8 @@ func buildNative(files []string, cases map[string][2]interface{}, race bool, rew
 	testFile := filepath.Join(dir, "zz_verif_replay_test.go")
 	os.WriteFile(testFile, []byte(sb.String()), 0o644)
 	replace[filepath.Join(repoDir, "zz_verif_replay_test.go")] = testFile
-	if rewriteOS {
-		if err := rewriteRepoForStubs(dir, replace, ov); err != nil {
+	if rewriteProg != nil {
+		if err := rewriteStubCalls(rewriteProg, dir, replace); err != nil {
 			return nil, err
 		}
 	}
@@ -220,8 +220,3 @@ func writeTempReplay(nd []NondetVal, harness string) string {
 	return f.Name()
 }
 
-// rewriteRepoForStubs: native replays of model-FS harnesses compile copies of the repo sources in which calls of
-// stubbed std functions are redirected to the harness stubs (implemented in rewrite.go).
-func rewriteRepoForStubs(dir string, replace map[string]string, ov map[string][]byte) error {
-	return rewriteStubCalls(dir, replace, ov)
-}
